@@ -2,6 +2,7 @@ package world
 
 import (
 	"fmt"
+	"sort"
 
 	"verif/harness/internal/rng"
 )
@@ -151,10 +152,14 @@ func GenIngressResourcesTargeting(r *rng.R, w *World, must []int) {
 		return b
 	}
 	nsList := []string{}
-	for _, ns := range NsNames {
+	for ns := range svcByNs { // every namespace that got a service (also namespaces outside the usual vocabulary)
 		if len(svcByNs[ns]) > 0 {
 			nsList = append(nsList, ns)
 		}
+	}
+	sort.Strings(nsList)
+	if len(nsList) == 0 {
+		return
 	}
 	nobj := r.Range(1, 3)
 	for i := 0; i < nobj; i++ {
